@@ -141,6 +141,34 @@ def gen_option_strings(ctx):
             ps = [part()[0] for _ in range(3)]; ps[pos] = j
             if ',' not in j:
                 yield ','.join(ps), 'reject'
+    # malformed: near misses of the accepted tokens (substrings / case variants / doubled characters of 'None' and of integers)
+    near = set()
+    for tok in ('None', '12', '-7', '+3'):
+        for i in range(len(tok)):
+            for j in range(i + 1, len(tok) + 1):
+                near.add(tok[i:j])
+        near.update({tok.lower(), tok.upper(), tok + tok[-1], tok[0] + tok, tok[::-1], tok.replace('o', '0'), ' '.join(tok)})
+    def _valid_part(t):
+        t = t.strip()
+        if t in ('', 'None'):
+            return True
+        try:
+            int(t); return True
+        except ValueError:
+            return False
+    for t in sorted(near):
+        if ',' in t or _valid_part(t):
+            continue
+        for pos in range(3):
+            ps = [part()[0] for _ in range(3)]; ps[pos] = t
+            yield ','.join(ps), 'reject'
+        yield t, 'reject'
+    # special accepted values of each position must denote themselves (-1, 0, 1 as start / stop / step; stop 0 is not "absent")
+    for a in ('', 'None', '-1', '0', '1', '-2', '2'):
+        for b in ('', 'None', '-1', '0', '1', '-2', '2'):
+            for c in ('', 'None', '1', '2', '-1'):
+                cv = lambda t: None if t in ('', 'None') else int(t)
+                yield f'{a},{b},{c}', ('slice', cv(a), cv(b), cv(c))
     # sample size below one
     for v in ('0', '-1', '-0', '-100', ' 0', '00'):
         yield v, 'reject'
